@@ -40,7 +40,7 @@ DKEYS = {'pch': 'per_degree_pch_out_db', 'psd': 'per_degree_psd_out_mWperGHz', '
 OTHER_LOSS = 1.0          # dB added to the path loss of the internal path types that are NOT crossed
 
 
-def cfg_text(offsets, load_only=False, emit=None, maxloss='MCMaxLossVecsQuick'):
+def cfg_text(offsets, load_only=False, emit=None, maxloss='MCMaxLossVecsQuick', keep_clauses=False):
     base = (tlc.SPEC / 'MC_RoadmLaw.cfg').read_text()
     base = base.replace('OffsetVecs <- MCOffsetVecsQuick', f'OffsetVecs <- {offsets}')
     base = base.replace('MaxLossVecs <- MCMaxLossVecsQuick', f'MaxLossVecs <- {maxloss}')
@@ -56,7 +56,8 @@ def cfg_text(offsets, load_only=False, emit=None, maxloss='MCMaxLossVecsQuick'):
         base = base.replace('ProfKinds <- MCProfKinds', 'ProfKinds <- MCProfOne')
         base = base.replace('Stages <- MCStages', 'Stages <- MCStageOne')
     if emit:
-        base = '\n'.join(ln for ln in base.splitlines() if not ln.startswith(('INVARIANT', 'PROPERTY')))
+        if not keep_clauses:
+            base = '\n'.join(ln for ln in base.splitlines() if not ln.startswith(('INVARIANT', 'PROPERTY')))
         base += f'\nINVARIANT {emit}\n'
     return base
 
@@ -130,8 +131,20 @@ def build(lib, elt, node_v, deg=None, crossing='express', profiles=None, explici
         net, _, _ = designed_network(eq, net)
     if reloaded:
         # the designed network is exported (what save_network writes) and loaded again: same configuration
-        from gnpy.tools.json_io import network_to_json, network_from_json
-        net = network_from_json(json.loads(json.dumps(network_to_json(net))), eq)
+        from gnpy.tools.json_io import network_to_json, network_from_json, load_network
+        doc = json.loads(json.dumps(network_to_json(net)))
+        if reloaded == 'yang':
+            # ... converted to the YANG form and read back through the file loader
+            import tempfile
+            from pathlib import Path
+            from gnpy.tools.convert_legacy_yang import legacy_to_yang
+            tlc.BUILD.mkdir(exist_ok=True)
+            with tempfile.TemporaryDirectory(dir=tlc.BUILD) as tmp:
+                f = Path(tmp) / 'network_yang.json'
+                f.write_text(json.dumps(legacy_to_yang(doc)))
+                net = load_network(f, eq)
+        else:
+            net = network_from_json(doc, eq)
         net, _, _ = designed_network(eq, net)
     return net, next(n for n in net.nodes() if n.uid == 'roadm B')
 
@@ -167,7 +180,7 @@ class Replay:
         self.traces = {}
         self.worst = 0.0
         self.counts = {'above': 0, 'below': 0, 'mixed': 0, 'deg_other_kind': 0, 'below_in_lower_loss_range': 0,
-                       'degree_set_to_zero': 0, 'profiles_not_listed_by_id': 0, 'profile_named_by_element': 0, 'reloaded': 0, 'second_crossing': 0}
+                       'degree_set_to_zero': 0, 'profiles_not_listed_by_id': 0, 'profile_named_by_element': 0, 'reloaded': 0, 'yang': 0, 'second_crossing': 0}
 
     def bench(self, cs, minimal_profile):
         key = (tuple(cs['lib']), tuple(cs['elt']), cs['degKind'], cs['crossing'], tuple(cs['maxloss']), cs['prof'],
@@ -179,7 +192,8 @@ class Replay:
                 node_v.setdefault(k, {'pch': -20000000, 'psd': -35000000, 'psw': -37000000}[k])
             self.benches[key] = build(cs['lib'], cs['elt'], node_v, cs['deg'], cs['crossing'], cs['profiles'],
                                       None if cs['explicitId'] == NONE else cs['explicitId'],
-                                      minimal_profile=minimal_profile, reloaded=cs['stage'] == 'reloaded')
+                                      minimal_profile=minimal_profile,
+                                      reloaded={'designed': False, 'reloaded': 'legacy', 'yang': 'yang'}[cs['stage']])
         return key, self.benches[key][1]
 
     def one(self, cs, minimal_profile=False):
@@ -189,7 +203,7 @@ class Replay:
         rels = [relation(c) for c in cs['ch']]
         cls = f"node={cs['node']['kind']}@{'elt' if cs['elt'] else 'lib'}|deg={cs['degKind']}|{cs['crossing']}" \
               f"|maxloss={'0' if not any(cs['maxloss']) else 'uniform' if len(set(cs['maxloss'])) == 1 else 'per-range'}" \
-              f"{'' if cs['prof'] == 'single' else '|profiles=' + cs['prof']}{'|reloaded' if cs['stage'] == 'reloaded' else ''}|offsets={'0' if not any(c['offset'] for c in cs['ch']) else 'mixed'}"
+              f"{'' if cs['prof'] == 'single' else '|profiles=' + cs['prof']}{'' if cs['stage'] == 'designed' else '|' + cs['stage']}|offsets={'0' if not any(c['offset'] for c in cs['ch']) else 'mixed'}"
         if minimal_profile:
             cls = 'impairment profile gives roadm-maxloss only|' + cls
         else:
@@ -198,6 +212,7 @@ class Replay:
             self.counts['mixed'] += ('above' in rels and 'below' in rels)
             self.counts['deg_other_kind'] += (cs['degKind'] != 'none' and cs['deg']['kind'] != cs['node']['kind'])
             self.counts['reloaded'] += cs['stage'] == 'reloaded'
+            self.counts['yang'] += cs['stage'] == 'yang'
             self.counts['second_crossing'] += bool(cs['ch2'])
             self.counts['degree_set_to_zero'] += cs['degKind'] == 'pch0'
             self.counts['profiles_not_listed_by_id'] += cs['prof'] == 'firstListed'
@@ -279,6 +294,7 @@ def replay_crossings(cases, chk):
     chk.cov['b2_cases_two_profiles_not_listed_by_id'] = counts['profiles_not_listed_by_id']
     chk.cov['b2_cases_profile_named_by_element'] = counts['profile_named_by_element']
     chk.cov['b2_cases_on_exported_and_reloaded_network'] = counts['reloaded']
+    chk.cov['b2_cases_on_network_reloaded_through_yang_form'] = counts['yang']
     chk.cov['b2_cases_with_second_crossing_other_channel_types'] = counts['second_crossing']
     if not all(counts.values()):
         raise Machinery(f'vacuous generation: {counts}')
@@ -472,16 +488,16 @@ def run(chk):
     offsets = 'MCOffsetVecsQuick' if chk.tier == 'quick' else 'MCOffsetVecsFull'
     maxloss = 'MCMaxLossVecsQuick' if chk.tier == 'quick' else 'MCMaxLossVecs'
     # ---- B1
-    r = tlc.run('MC_RoadmLaw', cfg_text=cfg_text(offsets, maxloss=maxloss), timeout=1800, tag='c06-mc')
-    chk.add_mc(f'MC_RoadmLaw OffsetVecs={offsets} MaxLossVecs={maxloss}', r)
+    # ---- B1 + B2 generation in ONE exploration: the clauses are checked as invariants while every case is emitted
+    r2 = tlc.run('MC_RoadmLaw', cfg_text=cfg_text(offsets, emit='EmitCross', maxloss=maxloss, keep_clauses=True), timeout=1800,
+                 tag='c06-mc')
+    chk.add_mc(f'MC_RoadmLaw OffsetVecs={offsets} MaxLossVecs={maxloss} (all clauses + emission of the crossings)', r2)
     chk.exhaustive = True
     if chk.tier == 'thorough':
         head = '\n'.join(ln for ln in cfg_text('MCOffsetVecsQuick').splitlines() if not ln.startswith(('INVARIANT', 'PROPERTY')))
         L.require_witnesses(chk, 'MC_RoadmLaw', head, ['ProbeEqualised', 'ProbeBelow', 'ProbeMixed', 'ProbeRejected',
                                                         'ProbeDegOtherKind', 'ProbeLowerLossRange'], 'c06-probe')
     # ---- B2 generation: crossings and configuration loading
-    r2 = tlc.run('MC_RoadmLaw', cfg_text=cfg_text(offsets, emit='EmitCross', maxloss=maxloss), timeout=1800, tag='c06-emit')
-    chk.add_mc('emit crossings', r2)
     r3 = tlc.run('MC_RoadmLaw', cfg_text=cfg_text(offsets, load_only=True, emit='EmitLoad', maxloss=maxloss), timeout=600, tag='c06-load')
     chk.add_mc('emit configuration loads', r3)
     if not r2.emitted or not r3.emitted:
